@@ -24,16 +24,17 @@ import (
 // every split to exactly one runner and restores cursors from the checkpoint. It never reports end
 // of input: runs are ended by drain-by-checkpoint.
 type VSource struct {
-	Splits   int
-	PerSplit int
-	TsMode   string // increasing | reversed | random | constant | extreme
-	mu       sync.Mutex
-	limit    []int // per split: records with offset < limit may be read (gate for crash points / idle pipeline)
-	readers  []*VReader
-	assigns  []Assignment // every AssignSplits call of every splitter incarnation
-	splitGen int
-	chunk    func(reader int, call int) int // seeded chunk size per read call
-	errEvery int                            // every n-th read of a reader returns a retryable error (0 = never)
+	Splits    int
+	PerSplit  int
+	TsMode    string // increasing | reversed | random | constant | extreme
+	mu        sync.Mutex
+	limit     []int // per split: records with offset < limit may be read (gate for crash points / idle pipeline)
+	readers   []*VReader
+	assigns   []Assignment // every AssignSplits call of every splitter incarnation
+	splitGen  int
+	chunk     func(reader int, call int) int // seeded chunk size per read call
+	errEvery  int                            // every n-th read of a reader returns a retryable error (0 = never)
+	readSizes []int
 }
 
 type Assignment struct {
@@ -260,7 +261,21 @@ func (r *VReader) ts(split, off int) int64 {
 	}
 }
 
-func (r *VReader) ReadEvents() ([][]byte, error) {
+// ReadSizes: the number of records every ReadEvents call of every reader returned.
+func (s *VSource) ReadSizes() []int {
+	s.mu.Lock()
+	defer s.mu.Unlock()
+	return append([]int{}, s.readSizes...)
+}
+
+func (r *VReader) ReadEvents() (out2 [][]byte, err2 error) {
+	defer func() {
+		if len(out2) > 0 {
+			r.src.mu.Lock()
+			r.src.readSizes = append(r.src.readSizes, len(out2))
+			r.src.mu.Unlock()
+		}
+	}()
 	r.mu.Lock()
 	defer r.mu.Unlock()
 	r.calls++
